@@ -498,6 +498,28 @@ func (c05) Gen(tier string, seed int64, emit func([]Ev)) {
 		}
 		c05Mutations(r, cat, false, func(m []byte, src string) { one("psi.FilterPMTPacketsToPids", m, r.Intn(8192), src) })
 	}
+	// payloads that hold no program map section at all: the pointer_field leads to the very end, to stuffing, to another
+	// table or to a section cut short; requested PIDs include the PAT PID (ignored by the filter's presence test)
+	for _, ptr := range []int{0, 1, 100, 149, 182, 183} {
+		for _, fill := range []byte{0xff, 0x30, 0x02, 0x00} {
+			for _, afl := range []int{-1, 33} {
+				var p packet.Packet
+				for i := range p {
+					p[i] = fill
+				}
+				p[0], p[1], p[2], p[3] = 0x47, 0x41, 0x00, 0x10
+				start := 4
+				if afl >= 0 {
+					p[3] = 0x30
+					p[4], p[5] = byte(afl), 0
+					start = 5 + afl
+				}
+				p[start] = byte(ptr)
+				one("psi.FilterPMTPacketsToPids", p[:], 0, "no-section")
+				one("psi.FilterPMTPacketsToPids", p[:], 0x100, "no-section")
+			}
+		}
+	}
 	// ---- streams ----
 	for k := 0; k < rounds*2; k++ {
 		var st []byte
